@@ -193,6 +193,9 @@ pub(crate) fn remove_all_digests(claims: &mut Value) -> Result<(), Error> {
     Ok(())
 }
 pub(crate) fn format_path(parent_path: &str, key: &str) -> String {
+    // a path is a JSON pointer (RFC 6901): '~' and '/' inside a member name are escaped, so the
+    // holder is told the path the issuer was given and two different claims never share a path
+    let key = key.replace('~', "~0").replace('/', "~1");
     if parent_path.is_empty() {
         format!("/{}", key)
     } else {
